@@ -43,7 +43,9 @@ CHECKS["C01"] = (
     "from the digest's own framing tokens) built in one registry; content_id equality and is_equal are compared "
     "in both directions with an independent structural key, for the roots and (through two maps that must stay "
     "functions, kept over the whole shard) for all pairs of nodes ever built; the same specs are rebuilt in two "
-    "worker processes with different PYTHONHASHSEEDs and a permuted field declaration order. Bounded exploration.",
+    "worker processes with different PYTHONHASHSEEDs and a permuted field declaration order; trees written at one "
+    "digest width (1..64), dropped, optionally edited in the payload and read back at another width must carry "
+    "the content ids of the same content built by hand. Bounded exploration.",
     "Trusts Hypothesis, the reference key (pbt/trees.py), blake2b not colliding by chance at >= 8 bytes; floats "
     "are outside C01's quantifier and not generated.",
     "DESIGN.md section 3 / C01",
@@ -111,7 +113,8 @@ CHECKS["C10"] = (
     "comparison/hash, accessors, rich rendering, setattr/delattr); after every step the snapshot (identity of "
     "children/origin, typed property values, id, content_id, hash) of every pre-existing node and its registry "
     "membership (allowed to change only for detach/replace receivers) are compared; plus a systematic part that "
-    "reads a serialized tree back under every drawn subset of still-registered nodes. Bounded exploration.",
+    "reads a serialized tree back under every drawn subset of still-registered nodes, and one that reads a "
+    "payload into a registry whose one-byte ids are held by unrelated nodes. Bounded exploration.",
     "Trusts Hypothesis and the snapshot of pbt/frame.py (dataclass fields, id, content_id, hash).",
     "DESIGN.md section 3 / C10",
 )
@@ -209,7 +212,8 @@ CHECKS["C13"] = (
     "with one targeted corruption; is_instance on every (value, resolved annotation) pair and the construction "
     "under RUNTIME_TYPE_CHECK (success iff all fields conform, InvalidTypes.invalid_fields exactly the "
     "non-conforming ones) are compared with an independent conformance function; with the switch off nothing "
-    "is validated and conforming input yields the same node. Bounded exploration.",
+    "is validated and conforming input yields the same node; nodes constructed by the deserializer from payloads "
+    "with a foreign node class in child entries are validated the same way. Bounded exploration.",
     "Trusts Hypothesis and the reference conformance in pbt/props/c13.py; bool vs float and bool/int/float "
     "crossings inside Literal are left open by the statement and not asserted.",
     "DESIGN.md section 3 / C13",
